@@ -195,10 +195,34 @@ def gen_range(rng, f):
         lo, hi = (None if rng.random() < 0.5 else float(f[i])), 1e9
     elif k == "random":
         lo, hi = sorted(float(v) for v in rng.uniform(f[0] - 1, f[-1] + 1, 2))
+    # the ends may arrive as any real scalar type (values taken from arrays are numpy scalars, not Python floats)
+    if rng.random() < 0.3:
+        lo, hi = scalar_form(rng, lo), scalar_form(rng, hi)
+        k += "+scalar-types"
     r = (lo, hi)
     if rng.random() < 0.3:
         r = [lo, hi]
     return r, k
+
+
+def scalar_form(rng, v):
+    """The same end of a range as another real scalar type (the value may be rounded by the type; the rounded value
+    is then simply the requested one)."""
+    if v is None:
+        return None
+    form = str(rng.choice(["float", "np.float64", "np.float32", "np.int64", "int", "np.float16"]))
+    with np.errstate(all="ignore"):
+        if form == "np.float64":
+            return np.float64(v)
+        if form == "np.float32":
+            return np.float32(v)
+        if form == "np.float16" and abs(v) < 6e4:
+            return np.float16(v)
+        if form == "np.int64" and abs(v) < 1e15:
+            return np.int64(round(v))
+        if form == "int" and abs(v) < 1e15:
+            return int(round(v))
+    return v
 
 
 def nontrivial_sig(ctx, kind, gkind, ccls, n, hist):
